@@ -134,6 +134,19 @@ func (s *walletSessionManager) ownedByOther(authToken, userID string) bool {
 	return ok && session.user != userID
 }
 
+// ownedBy tells whether given auth token belongs to a live session of the given user.
+// The session is only looked up, its expiry is not extended.
+func (s *walletSessionManager) ownedBy(authToken, userID string) bool {
+	sess, err := s.gstore.Get(authToken)
+	if err != nil {
+		return false
+	}
+
+	session, ok := sess.(*Session)
+
+	return ok && session.user == userID
+}
+
 func wrapSessionError(err error) error {
 	if errors.Is(err, ErrInvalidAuthToken) {
 		return ErrWalletLocked
